@@ -24,7 +24,7 @@ from .c07 import dom_digest, default_types_digest, OTHER_T, OTHER_U
 
 ID = "C17"
 RULE = ("domain elements: predicates p,q,r; function f; constant k; actions a1 (uses p,k), a2 (uses q,f,r); problem "
-        "elements: objects o1,o2; facts (p o1), (q o1 o2), (= (f) 3); goals (p o2), (r); agents 2 (quick) / 3 (thorough: "
+        "elements: objects o1,o2; facts (p o1), (p o2), (q o1 o2), (= (f) 3); goals (p o2), (r); agents 2 (quick) / 3 (thorough: "
         "domain splits only); every assignment of each element to a non-empty subset of agents that keeps each file "
         "self-contained; every permutation of the discovered files; add_dummy_actions on/off. one case = one domain split "
         "(with all orders, both dummy settings, and a rotating problem split). non-trivial = a split in which some "
@@ -45,7 +45,7 @@ ACT = {
            ":effect (and (r) (decrease (f) 1)))", {"q", "f", "r"}),
 }
 OBJ = {"o1": "t1", "o2": "t2"}
-FACTS = {"(p o1)": {"o1", "p"}, "(q o1 o2)": {"o1", "o2", "q"}, "(= (f) 3)": {"f"}}
+FACTS = {"(p o1)": {"o1", "p"}, "(p o2)": {"o2", "p"}, "(q o1 o2)": {"o1", "o2", "q"}, "(= (f) 3)": {"f"}}
 GOALS = {"(p o2)": {"o2", "p"}, "(r)": {"r"}}
 
 
@@ -167,7 +167,7 @@ def check_case(case):
         "functions": {"f": []},
         "actions": {"a1": [["?x", "t1"]], "a2": [["?x", "t1"], ["?y", "t2"]]},
     }
-    want_problem = {"objects": dict(OBJ), "atoms": {("p", "o1"), ("q", "o1", "o2")}, "fluents": {("f",): 3},
+    want_problem = {"objects": dict(OBJ), "atoms": {("p", "o1"), ("p", "o2"), ("q", "o1", "o2")}, "fluents": {("f",): 3},
                     "goals": {("p", "o2"), ("r",)}}
     first_vocab = None
     for perm in permutations(range(n)):
